@@ -836,7 +836,9 @@ class World(object):
         self.op(conn, 'wait', timeout)
         t0 = self.clock.t
         before = conn.buffered()
-        if conn.closed or conn.buffered() or conn.eof or conn.err is not None:
+        # readiness is a property of the *kernel* socket: bytes already decrypted inside the TLS layer (conn.record)
+        # do not make the descriptor readable -- that is what SelectorBase.wait's pending() short-cut is for
+        if conn.closed or conn.inbox or conn.eof or conn.err is not None:
             self.wait_log.append((t0, timeout, True, before, len(self.events)))
             return True
         step, remaining = self._next_step(conn)
